@@ -16,12 +16,19 @@ def struct_items(st):
     return M.inv_unionfind(st) + M.inv_struct(st, canon=True) + M.inv_no_uprooted(st)
 
 
+EXCLUDE = [None]      # regex over item labels that belong to a listed known finding (set per witness task)
+
+
 def property_items(kind, st, rules):
     """the observable assertion of a property at an observation point"""
+    import re
     if kind == "struct":         # C04: at every condition evaluation and at return
         return struct_items(st)
     if kind == "closed":         # C01: at `return false`
-        return S.closed(st, rules)
+        items = S.closed(st, rules)
+        if EXCLUDE[0]:
+            items = [(lab, l) for lab, l in items if not re.search(EXCLUDE[0], lab)]
+        return items
     raise ValueError(kind)
 
 
@@ -39,7 +46,12 @@ def search(su, U, k, K, kind, early=False, resume=False, k2=0, timeout_s=300, so
     roots0 = {(t, i): h.st.is_root(t, i) for t in h.sch.types for i in range(U)}
     ev0 = len(h.ctx.events)
 
+    cond_snaps = []
+
     def on_cond(g):
+        if kind == "contract":
+            import lemmas as L
+            cond_snaps.append((g, L.observable_snapshot(h.st)))
         if kind == "struct":
             bad.append(c.and2(g, -M.conj(property_items("struct", h.st, su.rules))))
 
@@ -48,6 +60,13 @@ def search(su, U, k, K, kind, early=False, resume=False, k2=0, timeout_s=300, so
             bad.append(-M.conj(property_items("struct", h.st, su.rules)))
         if kind == "closed" and not resume:
             bad.append(c.and2(-rv, -M.conj(property_items("closed", h.st, su.rules))))
+        if kind == "contract":      # C07: the state at return differs from the state in which the condition was last evaluated
+            import lemmas as L
+            conds = h.steps[-1][1]
+            held = c.orl([c.and_(g, b, L.same_observable(h.st, snap)) for (g, b), (_, snap) in zip(conds, cond_snaps)])
+            failed = c.orl([c.and_(g, -b, L.same_observable(h.st, snap)) for (g, b), (_, snap) in zip(conds, cond_snaps)])
+            bad.append(c.and2(rv, -held))
+            bad.append(c.and2(-rv, -failed))
         if kind == "enum":          # C15: after close() some element of an enum type is not a constructor value
             import lemmas as L
             bad.append(-M.conj(L.inv_enum(su, h.st)))
@@ -89,6 +108,8 @@ def replay(su, sch, harness, name, script, kind, rules, U=8):
         return replay_noalloc(su, sch, harness, name, script)
     if kind == "enum":
         return replay_enum(su, sch, harness, name, script)
+    if kind == "contract":
+        return replay_contract(su, sch, harness, name, script)
     for l in script:
         # a plain close() is replayed as close_until with a condition that never holds, so that the state is
         # also dumped at every evaluation of the condition (observation points of C04)
@@ -116,13 +137,57 @@ def replay(su, sch, harness, name, script, kind, rules, U=8):
         else:
             if where.startswith("cond") or last_ret != "false":
                 continue            # closedness is claimed after close() / `return false` only
-            items = S.closed(st, rules)
+            items = property_items("closed", st, rules)
         for lab, l in items:
             if l == F:
                 failing.append("%s: %s" % (where, lab))
             elif l != T:
                 raise RuntimeError("native state did not evaluate to a constant")
     return bool(failing), failing
+
+
+def replay_contract(su, sch, harness, name, script):
+    """C07: the observable state at the return of the final close_until must be the state in which its condition was last
+    evaluated (with the outcome that is returned)"""
+    lines = list(script[:-1])
+    last = script[-1]
+    lines.append("close_until 1000000" if last == "close" else last)
+    lines.append("dump")
+    try:
+        rc, out, err = harness.run(name, lines, timeout=60)
+    except Exception as ex:
+        return False, ["native run failed: %r" % ex]
+    if rc != 0:
+        return True, ["native run panics: " + err.strip().split("\n")[0][:200]]
+    events = N.parse_output(out)
+    # the events of the final close_until: cond dumps, ret, final dump
+    fin = events[-1]
+    ret = events[-2]
+    conds = []
+    for ev in reversed(events[:-2]):
+        if ev[0] == "dump" and ev[1].startswith("cond"):
+            conds.append(ev)
+        else:
+            break
+    conds.reverse()
+    if fin[0] != "dump" or ret[0] != "ret" or not conds:
+        return False, ["unexpected native output shape"]
+
+    def observable(d):
+        # ages are not observable through the public queries: new and old copies of an index are united
+        o = {}
+        nat = N.canonical_native(sch, d)
+        for rel in sch.rels.values():
+            o[rel.name] = sorted(set(nat[("field", rel.full("new").field)]) | set(nat[("field", rel.full("old").field)]))
+        for t in sch.types:
+            o[("uf", t)] = d[("uf", t)].strip()
+        return o
+    want = observable(conds[-1][2])
+    got = observable(fin[2])
+    diff = [str(k) for k in got if got[k] != want.get(k)]
+    if diff:
+        return True, ["close_until returned %s but the model at return differs from the model its condition was last evaluated on (%s) in %s" % (ret[1], conds[-1][1], ", ".join(diff[:4]))]
+    return False, ["state at return equals the state at the last condition evaluation"]
 
 
 def replay_enum(su, sch, harness, name, script):
